@@ -8,8 +8,7 @@
    answer: accept {q <tag> n1/d1 .. n7/d7 <hex> | s <hex> | b <0|1>}*      (one item per printing statement)
            reject <index of the first statement that does not compile>
    The table of named units is the generated TfelVerif.C20.GenTable (dumped from the headers). -/
-import TfelVerif.C20.Model
-import TfelVerif.C20.GenTable
+import TfelVerif.C20.Table
 open TfelVerif.C20
 
 def hexVal (c : Char) : Option UInt64 :=
@@ -32,8 +31,6 @@ def showHex (x : Float) : String :=
   else
     let b := x.toBits
     String.ofList ((List.range 16).map fun i => hexDigit ((b >>> (4 * (15 - i)).toUInt64) &&& 15))
-
-def tbl : List Exps := Gen.units.map fun u => u.2.2.map fun p => (⟨p.1, p.2⟩ : UExp)
 
 def opsF : Ops Float :=
   { add := (· + ·), sub := (· - ·), mul := (· * ·), div := (· / ·), neg := fun x => -x,
